@@ -18,8 +18,11 @@ Cases == {[kind |-> "real", dirs |-> d, stem |-> s, place |-> p, allow |-> a, al
             : d \in Dirs, s \in Stems, p \in Places, a \in Allows}
          \cup {[kind |-> k, dirs |-> <<>>, stem |-> "x", place |-> "outside", allow |-> a, allowset |-> a # <<>>]
             : k \in {"string", "frozen", "empty", "stdin"}, a \in Allows}
-ASSUME JsonSerialize(IOEnv.OUT_FILE, SetToSeq(Cases))
-ASSUME PrintT(<<"USIZE", Cardinality(Cases)>>)
+\* an allow-list that is SET but names nothing admits nothing
+CasesE == Cases \cup {[kind |-> "real", dirs |-> d, stem |-> s, place |-> p, allow |-> <<>>, allowset |-> TRUE]
+                       : d \in Dirs, s \in Stems, p \in {"outside", "root1", "link_into_root"}}
+ASSUME JsonSerialize(IOEnv.OUT_FILE, SetToSeq(CasesE))
+ASSUME PrintT(<<"USIZE", Cardinality(CasesE)>>)
 VARIABLE x
 Init == x = 0
 Next == x' = x
